@@ -116,9 +116,18 @@ func genTxnSchema(rng *rand.Rand, withRefs bool) TxnSchema {
 				case 1:
 					t.Cols = append(t.Cols, ColSpec{Name: cn, Type: ColType{Kind: "opt", Key: "uuid", Min: 0, Max: 1}, RefTable: target, RefType: rt})
 				case 2:
-					t.Cols = append(t.Cols, ColSpec{Name: cn, Type: ColType{Kind: "map", Key: "uuid", Val: "string", Min: 0, Max: -1}, RefTable: target, RefType: rt})
+					// (weak references in maps can have a minimum too: pruning must not go below it)
+					min := 0
+					if rt == "weak" && rng.Intn(2) == 0 {
+						min = 1
+					}
+					t.Cols = append(t.Cols, ColSpec{Name: cn, Type: ColType{Kind: "map", Key: "uuid", Val: "string", Min: min, Max: -1}, RefTable: target, RefType: rt})
 				case 3:
-					t.Cols = append(t.Cols, ColSpec{Name: cn, Type: ColType{Kind: "map", Key: "string", Val: "uuid", Min: 0, Max: -1}, ValRefTable: target, ValRefType: rt})
+					min := 0
+					if rt == "weak" && rng.Intn(2) == 0 {
+						min = 1
+					}
+					t.Cols = append(t.Cols, ColSpec{Name: cn, Type: ColType{Kind: "map", Key: "string", Val: "uuid", Min: min, Max: -1}, ValRefTable: target, ValRefType: rt})
 				default:
 					t.Cols = append(t.Cols, ColSpec{Name: cn, Type: ColType{Kind: "set", Key: "uuid", Min: 0, Max: -1}, RefTable: target, RefType: rt})
 				}
